@@ -55,4 +55,13 @@ CLAIMS['C19'] = {
             'must select a loaded key carrying it, identifiers of unloaded keys nothing. Path trees are exhausted per partition; bounded model checking.',
     'note': 'Trusted: the duck-typed PGPKey stand-ins (fingerprint/created/is_public/userids/subkeys as attributes), CrossHair. Outside: loading from blobs/files (key parsing), selection by message/signature, longer histories. '
             'One genuine defect repaired (fix: 0ed67fc).'}
+CLAIMS['C02'] = {
+    'technique': 'differential bounded symbolic execution: real hashdata/_sign/option code vs an RFC 4880 5.2.4 / 5.2.3.x reference model, symbolic subjects and option values (CrossHair+z3)',
+    'text': 'The octets PGPy hashes and hands to the signing primitive are compared with a reference model written from RFC 4880 (specs/rfc4880_sig.py) for every signature type PGPy emits: '
+            'documents (binary/text), stand-alone/timestamp, certifications and their revocations over user ids (arbitrary UTF-8) and user attributes, direct-key, key/subkey revocation, '
+            'subkey and primary-key binding, with symbolic subject and key-body octets; and for every option of sign/certify/revoke/revoker/bind (expiry, revocable, notation, policy, '
+            'key flags, preference lists, key expiry, key-server flags/URI, primary, exportable, trust, regex, reason/comment, designated revoker, issuer fingerprint on/off) the hashed area is compared with the RFC encoding. '
+            'Left-16 field and signature-integer encoding are decided too. Each obligation exhausts its path tree within the stated bounds.',
+    'note': 'The independent implementation is a reference model, not GnuPG (absent). Trusted: that model, the signature oracle and recording-hash stubs, CrossHair. Bounds: subjects and option strings of 0..2/3 symbolic '
+            'characters or octets, time-valued options at 5 boundary values, EdDSA integers at 256 boundary combinations. One genuine defect repaired (fix: e19eea5).'}
 NOT_APPLICABLE = {p: NB for p in ['C%02d' % i for i in range(1, 21)] if p not in CLAIMS}
